@@ -143,6 +143,15 @@ _bounded('C17',
          "No deductive part (one global representation invariant over aliased dictionaries). Explanations the HOL "
          "wrapper fails to build (exception) count as no answer.", '4 C17')
 
+_bounded('C06',
+         "Bounded stand-in (not a proof): directed and generated goals of the translatable fragment (quantifiers over "
+         "nat/int/real/bool in both polarities, truncated subtraction, division, of_nat, functions, sets) given to "
+         "z3wrapper.solve; an accepted goal must be valid under an own guard-correct encoding (counter-models of "
+         "quantifier-free goals replayed by exact evaluation). Goals accepted by the SymPy step (rational expressions, "
+         "with and without interval premise) are evaluated exactly on a grid with x / 0 = 0.",
+         "No deductive part (meaning of a translation to an external solver). Findings repaired: unguarded nat binders, "
+         "function equality, of_nat under binders (Z3); structural disequality and cancelled divisors (SymPy). "
+         "Transcendental functions in the SymPy step are not exercised.", '4 C06')
 _bounded('C08',
          "Bounded stand-in (not a proof): type_infer on erasures (5 kinds) of generated well-typed terms over theory "
          "real (overloaded arithmetic, polymorphic constants, higher-order variables, nested binders), on ill-typed "
